@@ -230,11 +230,64 @@ def run_case(ctx, mon, cfg_id, terms, prods, inputs_spec=None, rng=None, any_spe
     return inputs_spec
 
 
+_SEQ_PARSERS = {}
+SEQ_VARIANTS = {
+    # E -> a SEQ b ; an element of SEQ is any token but 'b' and 'c', or a group "c d" (written in three orders)
+    "any-first": lambda: llparser.ProdSequence(llparser.AnyTokenExcept('b', 'c'), 'GRP'),
+    "any-last": lambda: llparser.ProdSequence('GRP', llparser.AnyTokenExcept('b', 'c')),
+    "any-in-the-middle": lambda: llparser.ProdSequence('GRP', llparser.AnyTokenExcept('b', 'c', 'd'), 'PAIR'),
+}
+
+
+def sequence_case(ctx, rng, variant=None, smart=None):
+    """an LL(1) grammar written with the sequence template; membership is decided by a regular expression over the
+    token string"""
+    import re
+    variant = variant or rng.choice(sorted(SEQ_VARIANTS))
+    smart = rng.random() < 0.5 if smart is None else smart
+    cfg = llmon.TOKCFGS[0]
+    if (variant, smart) not in _SEQ_PARSERS:
+        prods = {'E': [('a', 'SEQ', 'b')], 'SEQ': SEQ_VARIANTS[variant](), 'GRP': [('c', 'd')]}
+        if variant == "any-in-the-middle":
+            prods['PAIR'] = [('d', 'a')]
+        _SEQ_PARSERS[variant, smart] = llparser.LLParser(
+            cfg.tokenizer_str, productions=prods, smart_factorization=smart, **cfg.kwargs)
+    parser = _SEQ_PARSERS[variant, smart]
+    member_re = "a(a|d|cd)*b" if variant != "any-in-the-middle" else "a(a|cd|da)*b"
+    for _ in range(6):
+        toks = [rng.choice("abcd") for _ in range(rng.choice([0, 2, 3, 4, 5, 6, 8]))]
+        if rng.random() < 0.6:
+            body = []
+            for _ in range(rng.choice([0, 1, 2, 3, 5])):
+                body += rng.choice([["a"], ["d"], ["c", "d"], ["c", "d"], ["d", "a"]])
+            toks = ["a"] + body + ["b"]
+        if member_re is None:
+            continue
+        ctx.evaluated()
+        member = re.fullmatch(member_re, "".join(toks)) is not None
+        case = {"sequence_variant": variant, "smart": smart, "tokens": toks}
+        try:
+            parser.parse(" ".join(toks), do_cleanup=False)
+            accepted = True
+        except llparser.ParsingError:
+            accepted = False
+        except Exception as err:
+            ctx.violation("sentence-raises-exception" if member else "non-sentence-raises-other-exception",
+                          {"type": type(err).__name__, "msg": str(err)[:100], "smart": smart}, case)
+            continue
+        ctx.count("sequence_template_decisions")
+        if accepted != member:
+            ctx.violation("conflict-free-parser-rejects-sentence" if member else "conflict-free-parser-accepts-non-sentence",
+                          {"smart": smart, "tokens": toks, "sequence_variant": variant}, case)
+
+
 def run_shard(ctx):
     mon = llmon.ParseMonitor()
     try:
         for i in range(ctx.cases):
             rng = ctx.rng(i)
+            if i % 10 == 7:
+                sequence_case(ctx, rng)
             cfg_id, terms, prods, kind = make_case(rng)
             ctx.count(f"generator_{kind}")
             any_spec = None
@@ -252,6 +305,11 @@ def run_shard(ctx):
 
 
 def replay(ctx, case):
+    if case.get("sequence_variant"):
+        import random
+        for k in range(50):
+            sequence_case(ctx, random.Random(k), case["sequence_variant"], case["smart"])
+        return
     mon = llmon.ParseMonitor()
     try:
         prods = {k: [tuple(a) for a in v] for k, v in case["prods"].items()}
